@@ -599,3 +599,74 @@ PROPS["C17"] = {
     "trusted_base": ["rand 0.8 StdRng / gen_range (not modelled; oracle G)"],
     "level": "proof",
 }
+
+
+# ------------------------------------------------------------------ C11: signal lists that do / do not fit
+
+def c11_cases(seed, tier):
+    base = run_family("c11", 600 if tier == "quick" else 30000, 0, [
+        {"n_bidir": 1, "pC": 0.25, "reads": 0.6, "declare": 0.3, "maxdepth": 2, "shadow_out": 0.3},
+        {"n_bidir": 2, "pC": 0.15, "reads": 0.4, "declare": 0.2, "maxdepth": 3, "odd_names": True},
+    ])(seed, "quick")
+    rng = random.Random(seed ^ 0xC11)
+    for c in base:
+        sigs = [dict(s) for s in c["sigs"]]
+        x = rng.random()
+        c["c11"] = "intact"
+        if x < 0.12 and len(sigs) > 1:
+            del sigs[rng.randrange(len(sigs))]
+            c["c11"] = "signal removed"
+        elif x < 0.22:
+            s = dict(rng.choice(sigs))
+            if rng.random() < 0.5:
+                s["typ"] = rng.choice(["I", "O", "B"])
+                if s["typ"] != "O" and s["default"] == "-":
+                    s["default"] = "0"
+            sigs.insert(rng.randrange(len(sigs) + 1), s)
+            c["c11"] = "signal duplicated"
+        elif x < 0.30:
+            sigs.insert(rng.randrange(len(sigs) + 1), {"name": rng.choice(["EXTRA", "Z9", "V1", "V2", "n", "i1"]), "typ": rng.choice(["I", "O", "B"]),
+                                                      "bits": rng.choice([1, 8]), "default": "0"})
+            c["c11"] = "extra signal"
+        elif x < 0.45:
+            s = rng.choice(sigs)
+            old = s["typ"]
+            s["typ"] = rng.choice([t for t in ("I", "O", "B") if t != old])
+            s["default"] = "-" if s["typ"] == "O" else (s["default"] if s["default"] != "-" else "0")
+            c["c11"] = "direction %s->%s" % (old, s["typ"])
+        elif x < 0.52:
+            s = rng.choice(sigs)
+            s["name"] = s["name"] + rng.choice(["_out", "x", "_OUT"])
+            c["c11"] = "renamed"
+        elif x < 0.58:
+            rng.shuffle(sigs)
+            c["c11"] = "reordered"
+        c["sigs"] = sigs
+        # the layout indices refer to the signal list: rebuild a layout over the output-capable signals
+        outs = [i for i, s in enumerate(sigs) if s["typ"] in ("O", "B")]
+        rng.shuffle(outs)
+        c["layout"] = outs
+        c["table"] = [[str(rng.randrange(0, 4)) for _ in outs] for _ in range(3)]
+    return base
+
+
+def c11_classify(case, trace):
+    return ["c11:" + case.get("c11", "?")]
+
+
+PROPS["C11"] = {
+    "cases": c11_cases,
+    "tags": ("PARSE", "BIND", "SIGNALS", "READS", "NEW", "ROW", "ITEM", "END"),
+    "nontrivial": lambda c, t: any(x == "BIND" for x, _ in t),
+    "oracles": [no_panic_oracle],
+    "rule": "seeded parsed programs (C entries, reads of outputs, declared virtual signals, variables shadowing output names) bound to signal lists that are intact (about 40%) or mutated: "
+            "a signal removed, duplicated (same or other direction), an extra signal (also named like a virtual signal or a loop variable), a direction changed, a signal renamed (also to <name>_out), "
+            "the list reordered; every accepted pair is then iterated to the end under catch_unwind; projection = bind verdict with error kind, bound signal list, read list, rows; "
+            "non-trivial = reaches the bind step; distinct = hash of the projection",
+    "proved": "with_signals p sigs = Ok <-> fits p sigs (the property's sentence as a boolean) for every parsed test with a duplicate-free header and every signal list; exact hypothesis-free form; "
+              "error otherwise; never panics, never out of fuel; an accepted pair satisfies wf_tc, the precondition of C10's no-panic theorem (given wf_parsed from the parser and well-formed caller-supplied virtual signals, "
+              "which the public API cannot construct ill-formed)",
+    "validated_only": "that ParsedTestCase::with_signals behaves as Bind.with_signals (verdict and error kind compared on every case); which error is returned when several apply",
+    "assumptions": ["Bind.v models src/parsed_test_case.rs (checked by this run)", "wf_parsed p for parsed tests (parser theorem, see C09/C12)"],
+    "trusted_base": [],
+}
